@@ -61,6 +61,30 @@ def skip_oracle(trial, calls):
     return v
 
 
+def ff_oracle(trial, calls):
+    """Sound local clause (state=None feeds): `send` drains every queued request before deciding, and a synchronised request
+    carrying r >= the id being sent fast-forwards the publisher to r+1 whoever else is connected.  So once a call has left the
+    request queues empty, no later publish may carry an id <= any synchronised (non-handshake) r delivered before that call."""
+    v = []
+    if any(op['k'] == 'c' and (op['state'] is not None or op['push']) for op in trial['ops']): return v
+    snaps = trial.get('_snaps') or []
+    floor, pend, k = -1, -1, 0
+    for op in trial['ops']:
+        if op['k'] == 'd':
+            r = op['r']
+            if not r.get('eph') and not r.get('new') and r['mid'] >= 0: pend = max(pend, r['mid'])
+            continue
+        if k >= len(calls) or k >= len(snaps): break
+        outs = calls[k]
+        for o in outs:
+            if o['k'] == 'pub' and 0 <= o['mid'] <= floor:
+                v.append(('sync-fast-forward-ignored', f'call {k} published id {o["mid"]} although a synchronised client had already asked for ids above {floor}'))
+                return v
+        if op['k'] == 'c' and not snaps[k]['queued']: floor = max(floor, pend)
+        k += 1
+    return v
+
+
 def paired_oracle(trial, calls):
     """publishes with and without the ephemeral requests on the same feed (state=None only).  The comparison is only sound
     where the open-loop feed cannot make the two runs diverge legitimately (see DESIGN.md 11.5): no id skip in either run (then
@@ -94,7 +118,7 @@ def run(ctx):
     protocol.recv_campaign(ctx, 'C05', n, ['wf', 'wf', 'adv'])
     npairs = [0]
     def extra(t, o):
-        r = paired_oracle(t, o) + skip_oracle(t, o)
+        r = paired_oracle(t, o) + skip_oracle(t, o) + ff_oracle(t, o)
         npairs[0] += 1
         return r
     protocol.send_campaign(ctx, 'C05', n, ['sync', 'sync0', 'sync0', 'adv'], extra_oracle=extra)
